@@ -410,7 +410,7 @@ class Body:
             else:
                 et = tuple(sorted((k, v) for k, v in e.items() if k in keep))
             for s in nxt:
-                if without_edge and (b, s) == without_edge:
+                if without_edge and ((b, s) == without_edge or (isinstance(without_edge, (set, frozenset)) and (b, s) in without_edge)):
                     continue
                 st.append((s, et))
         return out
